@@ -183,10 +183,9 @@ def _call_dh(case, mode):
             fn = lambda: f(eps, T, rho)
         else:
             b0 = physq.make(F(pt["b0"]), mode["b0"])
-            if mode["consts"]:
-                fn = lambda: f(eps, T, rho, b0=b0, constants=consts, units=u)
-            else:
-                fn = lambda: f(eps, T, rho, b0=b0, units=u)
+            kobj = consts if mode["consts"] else None
+            uobj = u if mode.get("uobj", True) else None
+            fn = lambda: f(eps, T, rho, b0=b0, constants=kobj, units=uobj)
         unit = "1" if kind == "A" else "1/m"
     else:
         IS = float(F(pt["IS"]))
@@ -224,6 +223,7 @@ def _call_dh(case, mode):
 
 def _mode_name(mode):
     return mode["mode"] + ("+constants" if mode.get("consts") else "") + \
+        ("-unitsarg" if mode.get("consts") and not mode.get("uobj", True) else "") + \
         ("+" + mode["backend"] if mode.get("backend", "default") != "default" else "")
 
 
